@@ -199,6 +199,10 @@ def _is_idx_lambda_broadcast_op(expr: IndexLambda,
     else:
         return False
 
+    if input_name not in expr.bindings:
+        # e.g. a bare index variable
+        return False
+
     from_shape = expr.bindings[input_name].shape
     to_shape = expr.shape
 
